@@ -40,6 +40,51 @@ if __name__ == "__main__":
             if kprune and cnt["prune"] == kprune:
                 os._exit(9)
         bob.builder.emptyDirectory = empty
+    tf = os.environ.get("BOBV_TRACE_FILE")
+    if tf:
+        # micro-op trace of the builder (codes = BobV.Builder.Model.mop_code): which persistent-state
+        # operations, prunes and script runs happen for which workspace, in which order
+        import datetime
+        fd = os.open(tf, os.O_WRONLY | os.O_CREAT | os.O_APPEND, 0o644)
+
+        def log(code, path):
+            os.write(fd, ("%d\t%s\n" % (code, os.path.normpath(path))).encode())
+        S = bob.state._BobState
+
+        def wrap(name, coder):
+            orig = getattr(S, name)
+
+            def f(self, path, *a, **kw):
+                log(coder(*a, **kw), path)
+                return orig(self, path, *a, **kw)
+            setattr(S, name, f)
+        wrap("resetWorkspaceState", lambda st: 4 if st is None else 3)
+        wrap("delInputHashes", lambda: 5)
+        wrap("setResultHash", lambda h: 6 if isinstance(h, datetime.datetime) else 8)
+        wrap("setVariantId", lambda v: 9)
+        wrap("setInputHashes", lambda i: 10)
+        wrap("setDirectoryState", lambda st: 11 if (isinstance(st, dict) and bob.builder.CHECKOUT_STATE_VARIANT_ID in st) else 12)
+        prev_empty = bob.builder.emptyDirectory
+
+        def empty2(path):
+            log(2, path)
+            prev_empty(path)
+        bob.builder.emptyDirectory = empty2
+        LB = bob.builder.LocalBuilder
+        orig_cd = LB._constructDir
+
+        def cd(self, step, label):
+            r = orig_cd(self, step, label)
+            if r[1]:
+                log(1, r[0])
+            return r
+        LB._constructDir = cd
+        orig_rs = LB._runShell
+
+        async def rs(self, step, *a, **kw):
+            log(7, step.getWorkspacePath())
+            return await orig_rs(self, step, *a, **kw)
+        LB._runShell = rs
     from bob.scripts import bob as main
     rc = main()
     # report how many saves happened so that the harness can enumerate kill points
